@@ -65,7 +65,7 @@ fn node(depth: u32) -> BoxedStrategy<N> {
         prop_oneof![
             4 => (form, vec(inner.clone(), 1..4)).prop_map(|(f, b)| N::Loop(0, f, b)),
             2 => (vec(prop_oneof![Just("1"), Just("2"), Just("5"), Just("-3"), Just("0.5"), Just("10")], 1..5), any::<bool>(), vec(inner.clone(), 1..4)).prop_map(|(items, idx, b)| N::For(0, items.into_iter().map(|s| s.to_string()).collect(), idx, b)),
-            2 => (any::<bool>(), 0u8..5, vec(inner.clone(), 1..4)).prop_map(|(t, f, b)| N::If(t, f, b)),
+            2 => (any::<bool>(), 0u8..7, vec(inner.clone(), 1..4)).prop_map(|(t, f, b)| N::If(t, f, b)),
             1 => (2u8..6).prop_map(|n| N::UseChain(0, n)),
             1 => vec(prop_oneof![Just("1"), Just("'two'"), Just("3.5"), Just("'x'"), Just("-4"), Just("'de luxe'")], 1..5).prop_map(|items| N::ForMixed(0, items.into_iter().map(|s| s.to_string()).collect())),
             1 => vec(inner.clone(), 1..4).prop_map(N::Group),
@@ -141,7 +141,12 @@ fn render(prog: &[N], unroll: bool, vars: &mut Vec<String>, out: &mut Vec<X>) {
                 out.push(X::El(g));
             }
             N::If(truth, form, b) => {
-                let test = match (truth, form % 5) {
+                let test = match (truth, form % 7) {
+                    // non-zero, however small (smaller than the three decimals a value is printed with)
+                    (true, 5) => "0.0004".to_string(),
+                    (true, 6) => "{{-1 / 4000}}".to_string(),
+                    (false, 5) => "{{0.0004 - 0.0004}}".to_string(),
+                    (false, 6) => "-0".to_string(),
                     (true, 0) => "1".to_string(),
                     (false, 0) => "0".to_string(),
                     (true, 1) => "gt(3, 2)".to_string(),
